@@ -15,6 +15,7 @@ EXPLANATION = (
     ' Also (second round): the batch split of depccg/parsing.py covers every sentence exactly once (R11.2 reused), and the rule cache stores the vector the callback filled without touching it.'
     ' Third round: the score matrices whose raw pointers go to the search are declared 2-d float C-contiguous buffers (R2.2 run:buffer); every accepted chart entry is expanded unconditionally.'
     ' Fourth round: worker results are gathered in the order the pieces were cut (rule of C11); one function-scope candidate queue that is never emptied between words is reported as a finding of the model.'
+    ' Fifth round: candidates selected with std::nth_element and read in index order are a model-level finding; the rule cache never shrinks during a search.'
 )
 TRUSTED = ['clang-14 front end (-fsyntax-only, JSON AST)', 'CPython ast', 'the Cython normaliser sa/pyx.py', 'rule table DESIGN.md C02']
 
